@@ -43,6 +43,9 @@ def run(ck):
         worst = ic.smallest(bad)
         ck.violation({"property": "C02", "kind": "model/implementation disagree; the C02 monitors still accept every observed trace",
                       "case": worst, "broken": "correspondence Ingest.sstep vs writer/service (blocks, events)"}, no_input=True)
+    ck.obligation("the freshness hypothesis of blocks_have_distinct_rows (fresh_run, model/IngestFresh.v) holds on every well-formed generated service script (%d)" % len(res["wf"]),
+                  not res["notfresh"], "not fresh (the generator re-used a row id or a promise): %s" % res["notfresh"][:10])
+    ck.extra.setdefault("input_distribution", {})["fresh_run_holds_service_scripts"] = "%d of %d well-formed" % (len(res["wf"]) - len(res["notfresh"]), len(res["wf"]))
     ic.coverage_level1(ck, res)
     run_http(ck)
 
@@ -68,6 +71,9 @@ def run_http(ck):
         b2 = [byid[i] for i in res["mism"]] or res["broken"]
         worst = min(b2, key=lambda c: (len(c["ops"]), len(c["reqs"])))
         ck.violation({"property": "C02", "kind": "model/implementation disagree on an HTTP script", "case": worst}, no_input=True)
+    ck.obligation("the freshness hypothesis fresh_run holds on every HTTP script (%d): rows recognised by content, each submitted by one sub-request" % len(res["good"]),
+                  not res["notfresh"], "not fresh: %s" % res["notfresh"][:10])
+    ck.extra.setdefault("input_distribution", {})["fresh_run_holds_http_scripts"] = "%d of %d" % (len(res["good"]) - len(res["notfresh"]), len(res["good"]))
     ic.coverage_level2(ck, res)
     soak = ic.run_soak(ck, "C02")
     if soak is not None:
